@@ -38,9 +38,20 @@ THOROUGH_MODELS = [("n<=4_values123", "MC_Ripser_n4_t.cfg", 4, True),
                    ("n=5_values12", "MC_Ripser_n5_t.cfg", 4, True),
                    ("n=5_values123_sample", "MC_Ripser_n5v3_t.cfg", 4, False),
                    ("n=6_values12_sample", "MC_Ripser_n6_t.cfg", 4, False)]
-# recorded traces: (kind, events, max_simplices) per value type
-QUICK_TRACES = [("dense", 250, 300), ("sparse", 250, 300), ("boundary", 12, 300)]
-THOROUGH_TRACES = [("dense", 1200, 300), ("dense", 250, 700), ("sparse", 1200, 300), ("sparse", 250, 700), ("boundary", 40, 300)]
+# the builds: value type, 128-bit integer (gudhi/uint128.h: the compiler's unsigned __int128 or the fallback class)
+BUILDS = [dict(name="ripser_harness_f", src="ripser_harness.cpp"),
+          dict(name="ripser_harness_d", src="ripser_harness.cpp", defines=("RIPS_VALUE_T=double",)),
+          dict(name="ripser_harness_k", src="ripser_harness.cpp", defines=("GUDHI_FORCE_FAKE_UINT128",))]
+BUILD_NAMES = ["float", "double", "float+fallback_uint128"]
+# recorded traces: build index -> (kind, events, max_simplices)
+QUICK_TRACES = {0: [("dense", 250, 300), ("sparse", 200, 300), ("boundary", 12, 300), ("wide", 60, 300), ("deep", 15, 300)],
+                1: [("dense", 250, 300), ("sparse", 200, 300), ("wide", 60, 300)],
+                2: [("dense", 60, 300), ("sparse", 150, 300), ("wide", 100, 300), ("deep", 30, 300)]}
+THOROUGH_TRACES = {0: [("dense", 1200, 300), ("dense", 250, 700), ("sparse", 1200, 300), ("sparse", 250, 700), ("boundary", 40, 300),
+                       ("wide", 300, 300), ("wide", 100, 700), ("deep", 100, 300)],
+                   1: [("dense", 1200, 300), ("dense", 250, 700), ("sparse", 1200, 300), ("sparse", 250, 700), ("wide", 300, 300),
+                       ("deep", 60, 300)],
+                   2: [("dense", 300, 300), ("sparse", 800, 300), ("wide", 400, 300), ("wide", 100, 700), ("deep", 150, 300)]}
 
 
 # ------------------------------------------------------------------------------------------ known findings
@@ -64,8 +75,63 @@ def _is_dimension_int8(dev):
             and _only_exceptions(dev, lambda g: g.startswith("crash: signal") or "length_error" in g))
 
 
+def _log2up(m):
+    m -= 1
+    k = 0
+    while m > 0:
+        m >>= 1
+        k += 1
+    return k
+
+
+def _index_beyond_64_bits(a, enc):
+    """is there a simplex of the Rips complex (<= dmax + 2 vertices) whose encoded index reaches bit 64 + bits(p-1)"""
+    import math
+    n, p = a["n"], a["p"]
+    lim = 1 << (64 + _log2up(p - 1))
+    bpv = _log2up(n)
+    nb = {}
+    for u, v, w in a["edges"]:
+        nb.setdefault(u, set()).add(v)
+        nb.setdefault(v, set()).add(u)
+    maxv = min(a["dmax"], n - 2) + 2
+    budget = [400000]
+
+    def index(s):
+        s = sorted(s)
+        if enc == "cns128":
+            return sum(math.comb(v, i + 1) for i, v in enumerate(s))
+        return sum(v << (bpv * i) for i, v in enumerate(s))
+
+    def grow(s, cand):
+        if budget[0] <= 0:
+            return True   # too many cliques to list: dense graph on high vertex numbers (the 'deep' inputs)
+        budget[0] -= 1
+        if len(s) >= 2 and index(s) >= lim:
+            return True
+        if len(s) >= maxv:
+            return False
+        for i, v in enumerate(cand):
+            if grow(s + [v], [u for u in cand[i + 1:] if u in nb[v]]):
+                return True
+        return False
+    return grow([], sorted(nb))
+
+
+def _is_fallback_mask(dev):
+    """fallback 128-bit integer class + odd prime + 128-bit encoding + an index beyond 64 bits: crash or wrong barcode"""
+    a = dev.get("act", {})
+    enc = (dev.get("run") or {}).get("enc") or a.get("enc")
+    ds = dev.get("diffs") or []
+    return ("fallback_uint128" in str(dev.get("cfg")) and a.get("p", 2) != 2 and enc in ("bf128", "cns128") and bool(ds)
+            and all(d.get("path") in ("diagram", "negative_interval", "forms_disagree")
+                    or (d.get("path") == "exception" and str(d.get("got")).startswith("crash: signal")) for d in ds)
+            and _index_beyond_64_bits(a, enc))
+
+
 MATCHERS = {"C11-upper-layout-converting-constructor": _is_upper_conversion,
-            "C11-dimension-type-int8-overflow": _is_dimension_int8}
+            "C11-dimension-type-int8-overflow": _is_dimension_int8,
+            "C11-fallback-uint128-coefficient-mask": _is_fallback_mask}
 
 
 # ------------------------------------------------------------------------------------------ TLC runs
@@ -139,8 +205,7 @@ def main(tier):
     tags = []
     try:
         with ThreadPoolExecutor(2) as bex, ThreadPoolExecutor(PAR) as pool:
-            fb = bex.submit(vf.build_many, [dict(name="ripser_harness_f", src="ripser_harness.cpp"),
-                                            dict(name="ripser_harness_d", src="ripser_harness.cpp", defines=("RIPS_VALUE_T=double",))], 2)
+            fb = bex.submit(vf.build_many, BUILDS, 3)
             results = run_models(models, 900 if tier == "quick" else 1150, pool)
             bins = fb.result()
 
@@ -198,7 +263,7 @@ def main(tier):
             raise vf.Infra("ripser_harness cases: %d of %d shards finished" % (nsumm, len(runs)))
         if summ["cases"] != len(bins) * ncases and not unknown:
             raise vf.Infra("ripser_harness cases ran %d of %d cases" % (summ["cases"], len(bins) * ncases))
-        ev.parts["replay"] = dict(summ, builds=["float", "double"], forms=forms, simplex_encodings=encs)
+        ev.parts["replay"] = dict(summ, builds=BUILD_NAMES, forms=forms, simplex_encodings=encs)
 
         # ---- recorded executions validated by the trace specification
         tdir = os.path.join(work, "traces")
@@ -206,8 +271,8 @@ def main(tier):
         specs = QUICK_TRACES if tier == "quick" else THOROUGH_TRACES
         jobs = []
         for bi, b in enumerate(bins):
-            for ki, (kind, nev, lim) in enumerate(specs):
-                p = os.path.join(tdir, "t_%s_%s_%d.ndjson" % ("fd"[bi], kind, ki))
+            for ki, (kind, nev, lim) in enumerate(specs[bi]):
+                p = os.path.join(tdir, "t_%s_%s_%d.ndjson" % ("fdk"[bi], kind, ki))
                 jobs.append((p, [b, "record", p, str(vf.seed() * 1000 + 17 * bi + ki), str(nev), kind, str(lim)]))
         recs = vf.run_parallel([c for _, c in jobs], par=PAR, timeout=600, ok_codes=(0, 3))
         for (p, c), r in zip(jobs, recs):
@@ -223,7 +288,7 @@ def main(tier):
         accepted_files = 0
         enc_runs = {}      # simplex encoding -> runs (dispatcher's choice vs forced)
         per_n = {}
-        torsion = 0
+        no_oracle = 0
         for info in infos:
             lines = open(info["file"]).read().splitlines()
             events = [json.loads(x) for x in lines]
@@ -240,6 +305,7 @@ def main(tier):
                     run = next((r for r in e.get("runs", []) if r.get("form") == form), {})
                     act = {k: e[k] for k in ("n", "edges", "dense", "t", "dmax", "p", "points") if k in e}
                     act["form"] = form
+                    act["enc"] = run.get("enc") or next((r.get("enc") for r in e.get("runs", []) if not r.get("form", "").startswith("enc_")), None)
                     dev = {"kind": "trace_rejected", "op": "ripser", "cfg": "%s:%s" % (e.get("value"), form), "file": info["file"],
                            "line": rj["line"], "act": act,
                            "diffs": [{"path": c, "exp": None, "got": run.get("exception") if c == "exception" else None} for c in clauses],
@@ -251,6 +317,7 @@ def main(tier):
             for k, (line, e) in enumerate(zip(lines, events)):
                 ev_hash.add(hashlib.md5(json.dumps({x: e[x] for x in ("n", "edges", "dense", "t", "dmax", "p")}, sort_keys=True).encode()).digest())
                 key = "dense" if e["dense"] else "sparse_%d" % e["n"]
+                no_oracle += 0 if e.get("oracle", True) else 1
                 per_n[key] = per_n.get(key, 0) + 1
                 for r in e["runs"]:
                     nruns += 1
@@ -264,6 +331,7 @@ def main(tier):
         ev.cov["traces_validated_against_impl"] = accepted_files
         ev.parts["traces"] = {"files": len(infos), "events": nevents, "distinct_inputs": len(ev_hash), "runs": nruns,
                               "events_rejected": sum(len(i["rejects"]) for i in infos), "inputs_by_kind": per_n,
+                              "events_without_oracle_forms_must_agree": no_oracle,
                               "runs_by_simplex_encoding": enc_runs,
                               "note": "the encoding of a dispatcher run is derived from help1's formula bits_per_vertex*(dim_max+2)+bits(p-1) "
                                       "(harness) and re-derived by Trace_Ripser.tla (clause encoding_formula)"}
